@@ -96,7 +96,6 @@ func observeRoutes(c mergeCase, o *mergeObs) {
 	one("NoSuchType", "x")
 }
 
-
 func classifyMergeErr(msg string) string {
 	switch {
 	case strings.HasPrefix(msg, "name collision"):
